@@ -28,7 +28,7 @@ Json Scenario::to_json() const {
 	for (auto &p : plans) pl.push(Json::obj().set("stage", stage_name[p.kind]).set("occ", p.occ).set("mode", mode_name[p.mode]).set("param", p.param).set("code", p.code));
 	j.set("plans", pl);
 	Json fl = Json::arr();
-	for (auto &f : faults) fl.push(Json::obj().set("call", f.call).set("index", f.index).set("errno", f.err));
+	for (auto &f : faults) { Json o = Json::obj().set("call", f.call).set("index", f.index).set("errno", f.err); if (f.persistent) o.set("persistent", true); fl.push(o); }
 	j.set("faults", fl);
 	Json sl = Json::arr();
 	for (auto &x : stops) sl.push(Json::obj().set("stage", stage_name[x.kind]).set("occ", x.occ).set("at", x.at).set("duration", x.duration));
@@ -39,6 +39,8 @@ Json Scenario::to_json() const {
 	j.set("readlink_fail", readlink_fail);
 	j.set("stdin_closed", stdin_closed).set("sigchld_ignored", sigchld_ignored);
 	j.set("sigterm_inherited", sigterm_inherited).set("stdin_stays_open", stdin_stays_open);
+	j.set("output_symlink", output_symlink);
+	{ Json pd = Json::arr(); for (auto &d : path_decoys) pd.push(d); j.set("path_decoys", pd); }
 	j.set("stray_exit_step", stray_exit_step);
 	j.set("stray_status", stray_status);
 	j.set("pipe_cap", pipe_cap);
@@ -74,7 +76,7 @@ bool Scenario::from_json(const Json &j, Scenario &s) {
 			s.plans.push_back(t);
 		}
 	if (const Json *fl = j.get("faults"))
-		for (auto &f : fl->a) s.faults.push_back({f.gets("call"), (int)f.geti("index"), (int)f.geti("errno")});
+		for (auto &f : fl->a) s.faults.push_back({f.gets("call"), (int)f.geti("index"), (int)f.geti("errno"), f.getb("persistent")});
 	if (const Json *sl = j.get("stops"))
 		for (auto &x : sl->a) {
 			StopPlan sp;
@@ -89,6 +91,8 @@ bool Scenario::from_json(const Json &j, Scenario &s) {
 	s.sigchld_ignored = j.getb("sigchld_ignored");
 	s.sigterm_inherited = (int)j.geti("sigterm_inherited", 0);
 	s.stdin_stays_open = j.getb("stdin_stays_open");
+	s.output_symlink = j.getb("output_symlink");
+	if (const Json *pd = j.get("path_decoys")) for (auto &d : pd->a) s.path_decoys.push_back(d.s);
 	s.stray_exit_step = (int)j.geti("stray_exit_step", -1);
 	s.stray_status = (int)j.geti("stray_status");
 	s.pipe_cap = (int)j.geti("pipe_cap", 2);
@@ -232,6 +236,9 @@ static Scenario minimise(Scenario sc, const std::string &cls, const Outcome &fir
 		if (sc.sigchld_ignored) { Scenario t = sc; t.sigchld_ignored = false; attempt(t); }
 		if (sc.sigterm_inherited) { Scenario t = sc; t.sigterm_inherited = 0; attempt(t); }
 		if (sc.stdin_stays_open) { Scenario t = sc; t.stdin_stays_open = false; attempt(t); }
+		if (sc.output_symlink) { Scenario t = sc; t.output_symlink = false; attempt(t); }
+		for (size_t i = 0; i < sc.path_decoys.size();) { Scenario t = sc; t.path_decoys.erase(t.path_decoys.begin() + i); if (!attempt(t)) i++; }
+		for (size_t i = 0; i < sc.faults.size(); i++) if (sc.faults[i].persistent) { Scenario t = sc; t.faults[i].persistent = false; attempt(t); }
 		for (size_t i = 0; i < sc.plans.size();) { Scenario t = sc; t.plans.erase(t.plans.begin() + i); if (!attempt(t)) i++; }
 		for (size_t i = 0; i < sc.faults.size();) { Scenario t = sc; t.faults.erase(t.faults.begin() + i); if (!attempt(t)) i++; }
 		for (size_t i = 0; i < sc.stops.size();) { Scenario t = sc; t.stops.erase(t.stops.begin() + i); if (!attempt(t)) i++; }
